@@ -132,6 +132,84 @@ Theorem c17_rows_disk_prefix :
 Proof. exact cb_disk_prefix. Qed.
 Print Assumptions c17_rows_disk_prefix.
 
+(* ---- one run of Tuner.run, body and `finally` block -------------------------------
+   Model: a fresh StoreResultsCallback and TuningStatus; [old_disk] = ANY earlier content of
+   results.csv.zip (an earlier run under the same name) or no file; the loop body is ANY list
+   of steps - polls handing over batches of results (with the trial's status and
+   configuration of that poll), trial starts, and exceptions (Fault) at any point; the
+   scheduler is an oracle stream of answers (decision, STOP/PAUSE?) and an exhausted stream
+   is an exception inside on_trial_result; the `finally` block runs print_best, the callbacks'
+   on_tuning_end, save, stop_all, mark-stopped in THIS order and ANY of save / stop_all /
+   mark may raise.  Then, however the run ends (returns or raises, wherever):
+   the table has exactly one row per result delivered to the scheduler in this run, in
+   order, each reflecting its delivery; the file holds exactly these rows (an older table
+   is overwritten, also by an empty one); the tuning status is the one of ALL results
+   handed to the loop in the completed polls (c17_stats / c17_best_tuner apply to it);
+   the run raises iff the body raised or one of the later `finally` steps did. *)
+Theorem c17_run :
+  forall (add_wallclock_time : bool) (old_disk : option (list dict)) (answers : list answer)
+         (steps : list step) (fails : fin_step -> bool),
+    fails FPrintBest = false -> fails FCallbacksEnd = false ->
+    let '(st, raised, tr) := tuner_run add_wallclock_time old_disk answers steps fails in
+    cb_results (rs_cb st) = map (make_row add_wallclock_time) (run_delivered answers steps) /\
+    Forall2 (row_reflects add_wallclock_time) (run_delivered answers steps) (cb_results (rs_cb st)) /\
+    cb_disk (rs_cb st) = Some (cb_results (rs_cb st)) /\
+    rs_ts st = ts_run (run_history answers steps) /\
+    raised = (snd (run_trace answers steps) || (fails FSaveTuner || fails FStopAll || fails FMarkStopped)) /\
+    (exists tr', tr = FPrintBest :: FCallbacksEnd :: tr').
+Proof. exact tuner_run_spec. Qed.
+Print Assumptions c17_run.
+
+(* Which results of a poll are delivered (Tuner._update_running_trials): every delivered
+   event is an item of the batch whose trial was not stopped before; nothing else is lost:
+   an item is delivered unless its trial got STOP / PAUSE from an earlier delivered result
+   of the same batch; the scheduler is asked once per delivery, in order. *)
+Theorem c17_deliver_batch :
+  forall batch answers done evs rem ok,
+    deliver_batch answers done batch = (evs, rem, ok) ->
+    (forall e s, In (e, s) evs ->
+       ~ In (ev_trial e) done /\ exists h a, In h batch /\ e = event_of h a /\ s = an_stops a) /\
+    (ok = true -> forall h, In h batch ->
+       In (hi_trial h) done \/
+       (exists a, In (event_of h a, an_stops a) evs) \/
+       (exists e, In (e, true) evs /\ ev_trial e = hi_trial h)) /\
+    (ok = true -> exists used, answers = used ++ rem /\ length used = length evs).
+Proof. exact deliver_batch_spec. Qed.
+Print Assumptions c17_deliver_batch.
+
+(* no STOP / PAUSE among the answers: every result handed over is delivered, 1:1, in order *)
+Theorem c17_deliver_all :
+  forall batch answers,
+    (length batch <= length answers)%nat ->
+    forallb (fun a => negb (an_stops a)) (firstn (length batch) answers) = true ->
+    deliver_batch answers [] batch =
+      (map (fun ha => (event_of (fst ha) (snd ha), false)) (combine batch answers),
+       skipn (length batch) answers, true).
+Proof. exact deliver_batch_all. Qed.
+Print Assumptions c17_deliver_all.
+
+Example c17_run_example :
+  let r (x : Q) : dict := [(KUser 0, VNum (Fin x))] in
+  let h t x := {| hi_trial := t; hi_result := r x; hi_status := 0; hi_config := [(0%nat, VNum (Fin 1))];
+                  hi_clock := 1; hi_fire := false |} in
+  let go := {| an_decision := 1; an_stops := false |} in
+  let stop := {| an_decision := 2; an_stops := true |} in
+  (* an old table on disk; trial 0 is stopped by its first result, its second result of the
+     same poll is not delivered; the next poll raises; stop_all raises as well *)
+  let '(st, raised, tr) :=
+    tuner_run true (Some [r 7; r 8]) [stop; go; go]
+              [Started 0; Started 1; Batch [0%Z; 1%Z] [h 0%Z 3; h 0%Z 2; h 1%Z 5]; Fault; Batch [1%Z] [h 1%Z 4]]
+              (fun f => match f with FStopAll => true | _ => false end) in
+  map ev_result (run_delivered [stop; go; go]
+                   [Started 0; Started 1; Batch [0%Z; 1%Z] [h 0%Z 3; h 0%Z 2; h 1%Z 5]; Fault; Batch [1%Z] [h 1%Z 4]])
+    = [r 3; r 5] /\
+  length (cb_results (rs_cb st)) = 2%nat /\ cb_disk (rs_cb st) = Some (cb_results (rs_cb st)) /\
+  st_count (ts_overall (rs_ts st)) = 3%nat /\ raised = true /\
+  tr = [FPrintBest; FCallbacksEnd; FSaveTuner; FStopAll] /\
+  (* a second run under the same name that delivers nothing overwrites the table *)
+  cb_disk (rs_cb (fst (fst (tuner_run true (Some [r 7; r 8]) [] [Started 0] (fun _ => false))))) = Some [].
+Proof. vm_compute. repeat split. Qed.
+
 (* ---- reading the table back from disk ----------------------------------------
    results.csv.zip = DataFrame(rows).to_csv, read with pd.read_csv.  Modelled: the columns
    (union of the row keys), one line per row in order, a missing / NaN / None cell written
@@ -225,6 +303,40 @@ Theorem c17_best_config :
                      print_best ts name m = Some (t, v) /\ aget Z.eqb t backend = Some cfg.
 Proof. exact tuner_best_config_spec. Qed.
 Print Assumptions c17_best_config.
+
+(* end to end, per-metric modes included: the configuration returned by Tuner.best_config is
+   the backend's configuration of a trial t which was seen, the metric is the one named /
+   indexed, the mode is THAT metric's mode (the single mode or the entry of the mode list
+   at the metric's index), and under that mode no counted value of the metric handed to
+   the loop is strictly better than t's optimum v (v is attained by t unless it is the
+   default +-inf) *)
+Theorem c17_best_config_attains :
+  forall names ms metric history backend t cfg,
+    tuner_best_config names ms metric (ts_run history) backend = Ok (t, cfg) ->
+    exists i name m v,
+      nth_error names i = Some name /\
+      match metric with
+      | ByIndex j => j = i
+      | ByName n => n = name /\ forall j, (j < i)%nat -> nth_error names j <> Some name
+      end /\
+      match ms with OneMode m' => m' = m | ModeList l => nth_error l i = Some m end /\
+      aget Z.eqb t backend = Some cfg /\
+      In t (map fst (ts_trials (ts_run history))) /\
+      v = opt_val m (counted name (of_trial t (handed history))) /\
+      (v = opt_dflt m \/ In v (counted name (of_trial t (handed history)))) /\
+      (forall t' x, In x (counted name (of_trial t' (handed history))) -> better m x v = false).
+Proof. exact best_config_attains. Qed.
+Print Assumptions c17_best_config_attains.
+
+Example c17_best_config_example :
+  let a := KUser 0 in let b := KUser 1 in
+  let r (x y : Q) : dict := [(a, VNum (Fin x)); (b, VNum (Fin y))] in
+  let hist := [([0%Z], [(0%Z, r 1 5)]); ([1%Z], [(1%Z, r 2 9)]); ([2%Z], [(2%Z, r 3 7)])] in
+  let backend := [(0%Z, [(0%nat, VNum (Fin 10))]); (1%Z, [(0%nat, VNum (Fin 11))]); (2%Z, [(0%nat, VNum (Fin 12))])] in
+  tuner_best_config [a; b] (ModeList [Min; Max]) (ByIndex 0) (ts_run hist) backend = Ok (0%Z, [(0%nat, VNum (Fin 10))]) /\
+  tuner_best_config [a; b] (ModeList [Min; Max]) (ByName b) (ts_run hist) backend = Ok (1%Z, [(0%nat, VNum (Fin 11))]) /\
+  tuner_best_config [a; b] (OneMode Max) (ByIndex 0) (ts_run hist) backend = Ok (2%Z, [(0%nat, VNum (Fin 12))]).
+Proof. vm_compute. repeat split. Qed.
 
 Theorem c17_best_config_no_results :
   forall names ms metric history backend,
